@@ -36,6 +36,11 @@ CHECKS["C08"] = dict(
   text="For all 73 in-repo functions reachable from the statement's parsing entry points, on every path: each index / slice / division / signed shift / fixed-width read is proved in range or non-zero (5 named exceptions, each with a premise the prover still checks); each single-result type assertion is dominated by a test of the same value; each make() size is a constant or bounded by input lengths (never by a decoded count); each loop is a range loop, a counted or decreasing loop with an invariant bound, or consumes input each iteration; each recursive cycle descends. An unproved obligation is reported, never assumed. Panics inside third-party callees, nil pointers in hand-built messages, stack depth and the exact time bound are not decided.",
   note="Trusted: out-of-repo callees total except the listed preconditioned ones; sort.Slice callback indices in range; len() < 2^50; int arithmetic on lengths exact; bloom filter within the wire size limit for the one no-wrap premise.",
   ref="§3 C08, §2.3")
+CHECKS["C02"] = dict(
+  technique="classification-chain and default-arm exhaustiveness over go/ssa + typed syntax, must-pass-through guard facts with linear entailment, structural match of the regrouping reference condition, checksum-guard propagation through in-repo decoders",
+  text="In every function reachable from the decoding entry points: each classification of an input-derived value (tagged switch / if-else-if chain over constants) sends unlisted values only to error returns, and each switch default arm rejects; every accepting return of the CashAddr payload decoder knows len(regrouped) == 21, regrouping runs 5->8 without padding on decode and 8->5 with padding on encode, a prefix separator was seen and mixed case rejects; the regrouping function rejects exactly under the reference condition (bits >= fromBits, or non-zero padding bits) when not padding; every accepting return of DecodeCashAddress is behind the remainder test and every accepting return of DecodeAddress behind a checksum-verifying decoder or is the raw public-key arm. One known finding (public-key format byte 0x05) is listed in known_findings.json. Value-level injectivity of decoding is not decided.",
+  note="Trusted: CashAddr specification constants; bchec.ParsePubKey. The remainder function itself is checked by C03.",
+  ref="§3 C02")
 
 NA_REASON = {
  "C17": "Every clause with content is a statement about IEEE-754 rounding of f*1e8, a/10^k and shortest-decimal printing over 2.1e15 integers; no fact about the shape of amount.go implies or refutes it, and the two shape-level clauses (NaN/Inf rejected, unit labels) are already pinned by the suite (DESIGN.md §4).",
